@@ -57,7 +57,7 @@ package keeper
 // Governance (C09): only the owner edits, mints, hands over; the cap is never below what circulates
 
 //@ func Keeper.EditToken(ctx, symbol, name, maxSupply, mintable, owner)
-//@   property C09
+//@   property C09, C12
 //@   returns err
 //@   requires tokWF(symbol)
 //@   let t0 = get(tokens, symbol)
@@ -71,6 +71,10 @@ package keeper
 //@                               && (maxSupply > 0 ==> get(tokens, symbol).MaxSupply == maxSupply)
 //@   ensures only_this: err == nil ==> tokens == set(old(tokens), symbol, get(tokens, symbol))
 //@   ensures rejected: err != nil ==> tokens == old(tokens)
+// an edited token must still pass genesis validation (Token.Validate: max supply >= initial supply), or the chain cannot
+// restart from its own export. KNOWN FINDING: the cap is compared with the circulating amount only, so after a burn it
+// can be set below the recorded initial supply.
+//@   ensures @C12 stays_importable: err == nil && t0.MaxSupply >= t0.InitialSupply ==> get(tokens, symbol).MaxSupply >= get(tokens, symbol).InitialSupply
 //@ end
 
 //@ func Keeper.MintToken(ctx, coinMinted, recipient, owner)
